@@ -12,7 +12,11 @@ BASE_TB = ("Coq 8.16.1 kernel (vm_compute, no native_compute), no axioms (Print 
 # one JSON file per claimed property: harness/manifest.d/Cxx.json
 # {property_id, text, note_extra, technique, design_ref}
 CHECKS = {}
+# only the checks integrated by the lead (file ENABLED, one id per line) are claimed
+ENABLED = set((ROOT / "harness" / "manifest.d" / "ENABLED").read_text().split())
 for f in sorted((ROOT / "harness" / "manifest.d").glob("C*.json")):
+    if f.stem not in ENABLED:
+        continue
     e = json.loads(f.read_text())
     CHECKS[e["property_id"]] = (e["text"], BASE_TB + "; " + e["note_extra"], e["technique"], e["design_ref"])
 
